@@ -126,6 +126,7 @@ std::string g_root;
 
 struct H52 : hu::Harness {
   const char* property() const override { return "C52"; }
+  bool first_use_run() override { return true; }
   hu::Plan generate(uint64_t seed, int tier, vsim::Config& cfg) override {
     hu::Rng r(seed); hu::Plan p;
     long nfiles = tier ? r.range(1, 12) : r.range(1, 6);
@@ -144,6 +145,7 @@ struct H52 : hu::Harness {
     }
     cfg.strategy = int(r.range(0, 3)); cfg.sticky_num = int(r.range(1, 3)); cfg.starve_thread = int(r.range(0, nj)); cfg.sig_linux_bias = int(r.range(0, 1));
     cfg.max_steps = 200000 + 40000 * long(p.ops.size());
+    if (r.chance(1, 4)) { static const int rates[] = {7, 31, 101, 211}; cfg.alloc_rate = rates[r.range(0, 3)]; cfg.alloc_phase = int(r.range(0, 210)); cfg.max_steps *= 4; }   // a share of the runs: allocations of the code under test as scheduling points
     return p;
   }
   std::string describe(const hu::Plan& p) override {
